@@ -23,12 +23,12 @@ import (
 // (failing call, accepted prefix length) pair is enumerated inside a run.
 
 type tlEntry struct {
-	t     time.Time
-	f     *ref.Frame   // what must be on disk
-	fr    frame.Frame  // what is handed to the writer
-	def   *ref.MsgDef
-	vals  ref.Values
-	bad   string // non-empty: the frame cannot be encoded
+	t    time.Time
+	f    *ref.Frame  // what must be on disk
+	fr   frame.Frame // what is handed to the writer
+	def  *ref.MsgDef
+	vals ref.Values
+	bad  string // non-empty: the frame cannot be encoded
 }
 
 func genTime() time.Time {
